@@ -165,3 +165,11 @@ package metric
 //@   ensures[C12] !v2EnvKnown(m) ==> result == SeverityLow
 //@   ensures[C06s] v2EnvOK(m) ==> (ks >= 0 ==> result == v2_sev_of_k(ks))
 //@   family sev[C06s] when v2EnvOK(m): ; replace Environmental.Score#0 grid -20 100 pm0 as ks
+
+// roundTo1Decimal is inlined at its call sites; its own contract over all doubles of the range that can occur
+// (thorough tier; bit-blasted Float64): the result is within half a tenth (plus rounding slack) of the input.
+//@ func roundTo1Decimal(input float64) float64
+//@   inline
+//@   thorough
+//@   modifies nothing
+//@   ensures[C06r] input >= 0.0 - 20.0 && input <= 110.0 ==> result >= input - 0.0500001 && result <= input + 0.0500001
